@@ -120,7 +120,7 @@ pub fn run(run: &RunInfo, c03: bool) -> Summary {
                 match guarded(|| (real.decode)(&bytes)) {
                     Err(p) => acc.violation(viol(mk_key("decode-panic"), describe(format!("decoding the reference bytes panicked: {p}")), rank)),
                     Ok(Err(e)) => acc.violation(viol(mk_key("decode"), describe(format!("decoding the reference bytes fails: {e:?}")), rank)),
-                    Ok(Ok((dbg, rest))) => {
+                    Ok(Ok((dbg, rest, _))) => {
                         if dbg != want_debug || rest != 0 {
                             acc.violation(viol(mk_key("decode"), describe(format!("decoded as  : {dbg}\nbytes left over: {rest}")), rank));
                         } else {
